@@ -1321,6 +1321,7 @@ func (d *descendantOverDescendantQuery) Select(t iterator) NodeNavigator {
 
 func (d *descendantOverDescendantQuery) Evaluate(t iterator) interface{} {
 	d.Input.Evaluate(t)
+	d.level = 0
 	return d
 }
 
